@@ -218,11 +218,13 @@ pub trait Collector<M: Math, P: Point<M>> {
     spec fn leapfrogs(&self) -> nat;
     spec fn traj(&self) -> Map<int, StateView>;
     spec fn draws(&self) -> Seq<StateView>;
+    spec fn divs(&self) -> nat;
     spec fn lf_post(&self, post: &Self, end: StateView, diverged: bool) -> bool;
     fn register_leapfrog(&mut self, math: &mut M, start: &State<M, P>, end: &State<M, P>, divergence_info: Option<&DivergenceInfo>)
         ensures msame(final(math), old(math)),
                 final(self).leapfrogs() == old(self).leapfrogs() + 1,
                 final(self).draws() == old(self).draws(),
+                final(self).divs() == old(self).divs() + (if divergence_info is Some { 1nat } else { 0nat }),
                 divergence_info is None ==> final(self).traj() == old(self).traj().insert(end.view().idx, end.view()),
                 divergence_info is Some ==> final(self).traj() == old(self).traj(),
                 old(self).lf_post(final(self), end.view(), divergence_info is Some);
@@ -261,6 +263,8 @@ pub trait Hamiltonian<M: Math>: Sized {
             !(r is Err) ==> final(collector).leapfrogs() == old(collector).leapfrogs() + 1,
             r is Err ==> final(collector).leapfrogs() == old(collector).leapfrogs(),
             final(collector).draws() == old(collector).draws(),
+            // a divergent step is counted as such by the collector (and only a divergent one)
+            final(collector).divs() == old(collector).divs() + (if r is Divergence { 1nat } else { 0nat }),
             match r {
                 LeapfrogResult::Ok(out) => {
                     &&& out.view().idx == start.view().idx + dir_sign(dir)
